@@ -310,7 +310,7 @@ pub fn run(args: &Args) -> i32 {
             rep.set("lanes_skipped", json!([{"lane": "strace", "reason": reason}]));
         }
     }
-    rep.finish(args.by_tier(40, 400))
+    rep.finish(args.by_tier(24, 300))
 }
 
 fn replay(args: &Args, path: &std::path::Path) -> i32 {
